@@ -360,6 +360,12 @@ impl<'a> Work<'a> {
     ) -> Self {
         let file_state = FileState::new(&graph);
         let build_count = graph.builds.next_id();
+        #[cfg(feature = "verif")]
+        if crate::verif::active() {
+            let mut dump = crate::verif::dump_graph(&graph, Some(&last_hashes));
+            dump.pools = pools.iter().map(|(k, v)| (k.clone(), *v)).collect();
+            crate::verif::with(|h| h.work_new(&dump));
+        }
         Work {
             graph,
             db,
@@ -706,6 +712,11 @@ impl<'a> Work<'a> {
         let mut runner = task::Runner::new(self.options.parallelism);
         while self.build_states.unfinished() {
             self.progress.update(&self.build_states.counts);
+            #[cfg(feature = "verif")]
+            if crate::verif::active() {
+                let snap = self.verif_snap(runner.running);
+                crate::verif::with(|h| h.loop_top(&snap));
+            }
 
             // Approach:
             // - First make sure we're running as many queued tasks as the runner
@@ -803,8 +814,45 @@ impl<'a> Work<'a> {
         // But at least for the LLVM test suite it can catch sigint and print
         // "interrupted by user" and exit with success, and in that case we
         // don't want n2 to print a "succeeded" message afterwards.
+        #[cfg(feature = "verif")]
+        if crate::verif::active() {
+            let snap = self.verif_snap(runner.running);
+            crate::verif::with(|h| h.run_end(&snap));
+        }
         let success = tasks_failed == 0 && !signal::was_interrupted();
         Ok(success)
+    }
+}
+
+#[cfg(feature = "verif")]
+impl<'a> Work<'a> {
+    /// Snapshot of the scheduler state for the verification harness.
+    fn verif_snap(&self, runner_running: usize) -> crate::verif::LoopSnap {
+        use crate::densemap::Index;
+        let n = self.graph.builds.next_id().index();
+        let states = (0..n)
+            .map(|i| match self.build_states.get(BuildId::from(i)) {
+                BuildState::Unknown => 0,
+                BuildState::Want => 1,
+                BuildState::Ready => 2,
+                BuildState::Queued => 3,
+                BuildState::Running => 4,
+                BuildState::Done => 5,
+                BuildState::Failed => 6,
+            })
+            .collect();
+        crate::verif::LoopSnap {
+            states,
+            counts: crate::verif::counts_array(&self.build_states.counts),
+            total_pending: self.build_states.total_pending,
+            pools: self
+                .build_states
+                .pools
+                .iter()
+                .map(|(k, p)| (k.clone(), p.running, p.depth, p.queued.len()))
+                .collect(),
+            runner_running,
+        }
     }
 }
 
